@@ -43,16 +43,26 @@ static unsigned inside_flag(const void* p, size_t n) {
   for (const Range& r : g_blocks) if (q >= r.lo && q + n <= r.hi) return 0;
   return 16;
 }
-static std::string g_cbs;
-static void on_msg(uint16_t num, const void* data, size_t len) {
-  if (!g_cbs.empty()) g_cbs.push_back(',');
-  g_cbs += std::to_string((unsigned)num);
-  g_cbs.push_back(':');
+// Token K<n> (anywhere in the line): 0 = no callback registered (SetMessageCallback(nullptr)), 1 = callback A, 2 = callback B
+// (a replacement).  Exactly the registered one must see every dispatched frame; a record in the other is flagged CBDIFF;
+// with none registered the callbacks field is '~' and only the return value and the decoded count are judged.
+static std::string g_cbs, g_cbs_b;
+static unsigned g_reg = 1;
+static void record(std::string& rec, uint16_t num, const void* data, size_t len) {
+  if (!rec.empty()) rec.push_back(',');
+  rec += std::to_string((unsigned)num);
+  rec.push_back(':');
   const uint8_t* p = static_cast<const uint8_t*>(data);
-  for (size_t i = 0; i < len; ++i) { g_cbs.push_back(HEXD[p[i] >> 4]); g_cbs.push_back(HEXD[p[i] & 15]); }
-  g_cbs.push_back(':');
-  g_cbs += std::to_string((unsigned)(reinterpret_cast<uintptr_t>(data) & 3) + inside_flag(data, len));
+  for (size_t i = 0; i < len; ++i) { rec.push_back(HEXD[p[i] >> 4]); rec.push_back(HEXD[p[i] & 15]); }
+  rec.push_back(':');
+  rec += std::to_string((unsigned)(reinterpret_cast<uintptr_t>(data) & 3) + inside_flag(data, len));
   if (g_cb_resets) static_cast<RTCMFramer*>(g_framer)->Reset();
+}
+static void on_msg(uint16_t num, const void* data, size_t len) { record(g_cbs, num, data, len); }
+static void on_msg_b(uint16_t num, const void* data, size_t len) { record(g_cbs_b, num, data, len); }
+static void set_callbacks(RTCMFramer* f, unsigned reg) {
+  g_reg = reg;
+  f->SetMessageCallback(reg == 1 ? on_msg : reg == 2 ? on_msg_b : nullptr);
 }
 
 // private state is advisory: print -1 when a member no longer exists under that name
@@ -116,7 +126,7 @@ int main() {
     }
     g_framer = f;
     f->WarnOnError(false);
-    f->SetMessageCallback(on_msg);
+    set_callbacks(f, 1);
     out = "C;" + adv(*f);
     while (is >> tok) {
       if (tok[0] == 'O') {
@@ -125,6 +135,7 @@ int main() {
         g_cb_resets = (bits & 4) != 0;
         continue;
       }
+      if (tok[0] == 'K') { set_callbacks(f, (unsigned)atoi(tok.c_str() + 1)); continue; }
       out.push_back('|');
       asan_hit = 0;
       if (tok[0] == 'R') {
@@ -155,13 +166,15 @@ int main() {
         uint8_t* raw = (uint8_t*)malloc(off + d.size());
         uint8_t* in = raw + off;
         if (!d.empty()) memcpy(in, d.data(), d.size());
-        g_cbs.clear();
+        g_cbs.clear(); g_cbs_b.clear();
         size_t ret = f->OnData(in, d.size());
         bool inmod = !d.empty() && memcmp(in, d.data(), d.size()) != 0;
         free(raw);
         std::ostringstream os;
-        os << "D;" << ret << ';' << (g_cbs.empty() ? "-" : g_cbs) << ';' << f->GetNumDecodedMessages() << ';'
-           << f->GetNumErrors() << ';' << (asan_hit ? "ASAN" : inmod ? "INMOD" : "ok") << ';' << adv(*f);
+        std::string& rec = g_reg == 2 ? g_cbs_b : g_cbs;
+        bool diff = (g_reg != 1 && !g_cbs.empty()) || (g_reg != 2 && !g_cbs_b.empty());
+        os << "D;" << ret << ';' << (g_reg == 0 ? "~" : rec.empty() ? "-" : rec) << ';' << f->GetNumDecodedMessages() << ';'
+           << f->GetNumErrors() << ';' << (asan_hit ? "ASAN" : inmod ? "INMOD" : diff ? "CBDIFF" : "ok") << ';' << adv(*f);
         out += os.str();
       }
     }
